@@ -2,7 +2,7 @@
 From Coq Require Import String.
 From Coq Require Import List Bool Arith NArith.
 Import ListNotations.
-Require Import Str DriverIp DriverJun DriverText.
+Require Import Str DriverIp DriverJun DriverText DriverCli.
 Local Open Scope N_scope.
 
 Definition run_case (fields : list str) : str :=
@@ -12,6 +12,7 @@ Definition run_case (fields : list str) : str :=
       else if mem_str cmd [lit "jenc"; lit "jdec"] then run_jun fields
       else if str_eqb cmd (lit "pipe") then run_pipe fields
       else if str_eqb cmd (lit "asr") then run_asr fields
+      else if str_eqb cmd (lit "mainm") then run_mainm fields
       else lit "BADCMD"
   | [] => lit "BADCMD"
   end.
